@@ -142,6 +142,25 @@ def directed():
                    {"op": "receive", "w": "w3", "tok": "t1", "swap": True}, {"op": "receive", "w": "w3", "tok": "t2", "swap": True},
                    {"op": "restore", "w": "w1"}]
             hs.append({"mints": [{"name": "ma", "fee": fee, "policy": "min1"}, {"name": "mb", "fee": 0, "policy": "min1"}], "wallets": ws, "ops": ops})
+    # a rotation that changes the fee while the wallet object stays loaded; right after it fee-inclusive sends that cannot be
+    # served from the store (the small proofs were handed out before), and transactions whose inputs span both keysets
+    for f1, f2 in ((0, 1000), (100, 1000), (1000, 100), (1000, 0), (100, 100), (100, 250)):
+        ops = [{"op": "mint", "w": "w1", "m": "ma", "amt": 64}, {"op": "send", "w": "w1", "m": "ma", "amt": 1}, {"op": "send", "w": "w1", "m": "ma", "amt": 2},
+               {"op": "rotate", "m": "ma", "fee": f2},
+               {"op": "send", "w": "w1", "m": "ma", "amt": 5, "fees": True}, {"op": "receive", "w": "w2", "tok": "t3"},
+               {"op": "send", "w": "w1", "m": "ma", "amt": 5, "fees": True}, {"op": "receive", "w": "w2", "tok": "t4"},
+               {"op": "mint", "w": "w1", "m": "ma", "amt": 8}, {"op": "send", "w": "w1", "m": "ma", "amt": 45}, {"op": "receive", "w": "w2", "tok": "t5"},
+               {"op": "send", "w": "w2", "m": "ma", "amt": 30, "fees": True}, {"op": "reclaim", "w": "w2"},
+               {"op": "melt", "w": "w2", "m": "ma", "amt": 20}, {"op": "mintswap", "w": "w2", "from": "ma", "to": "mb", "amt": 10}]
+        hs.append({"mints": [{"name": "ma", "fee": f1, "policy": "min1"}, two[1]], "wallets": ws[:2], "ops": ops})
+    # a restored wallet at a fee-bearing mint that is not its default: sends with fees, mint swaps, melts
+    for fee in (100, 1000):
+        ops = [{"op": "mint", "w": "w3", "m": "ma", "amt": 64}, {"op": "mint", "w": "w3", "m": "mb", "amt": 16}, {"op": "restore", "w": "w3"},
+               {"op": "send", "w": "w3", "m": "ma", "amt": 5, "fees": True}, {"op": "receive", "w": "w1", "tok": "t1"},
+               {"op": "mintswap", "w": "w3", "from": "ma", "to": "mb", "amt": 10}, {"op": "melt", "w": "w3", "m": "ma", "amt": 7},
+               {"op": "sendlocked", "w": "w3", "m": "ma", "amt": 6, "to": "w1", "fees": True}, {"op": "receive", "w": "w1", "tok": "t2"},
+               {"op": "restore", "w": "w3"}]
+        hs.append({"mints": [{"name": "ma", "fee": fee, "policy": "min1"}, {"name": "mb", "fee": 0, "policy": "min1"}], "wallets": ws, "ops": ops})
     # proofs on the old and on the new keyset after a rotation, spent together: sends around and above what the old keyset holds
     for fee in (0, 100):
         for old, new, amts in ((3, 12, (4, 2, 5)), (7, 9, (8, 3)), (5, 10, (6, 6)), (1, 14, (2, 9)), (15, 16, (16, 10))):
